@@ -96,6 +96,15 @@ def cases(draw, name):
             spec = draw(S.pd_spec(True, max_npts=15 if c01.eval_time(name) < 2e-4 else 3, allow_cut=False))
             pd.update({pname + "_pd": spec["width"], pname + "_pd_n": spec["n"], pname + "_pd_nsigma": spec["nsigma"],
                        pname + "_pd_type": spec["type"]})
+    # pure numbers at whole values: models special-case exponents and dimensions of exactly 1, 2, 3
+    whole_choice = {}
+    for pname, p in S.expanded_parameters(info):
+        if (UNIT_EXP[p.units] == 0 and p.type not in ("sld", "orientation", "magnetic")
+                and not S._is_integer_like(p) and pname not in ("scale", "background")):
+            whole = [v for v in (1.0, 2.0, 3.0) if p.limits[0] <= v <= p.limits[1]]
+            # (fractions, whose limits stop at 1, are left alone: a fraction of exactly 1 is outside a model's domain)
+            if len(whole) == 3 and draw(st.integers(0, 7)) == 0:
+                whole_choice[pname] = draw(st.sampled_from(whole))
     case = {"model": name, "source": src, "pd": pd,
             "lam": S.sig(10 ** draw(st.floats(math.log10(0.3), math.log10(3.0))), 5),
             "mu": S.sig(10 ** draw(st.floats(math.log10(0.3), math.log10(3.0))), 5),
@@ -110,6 +119,7 @@ def cases(draw, name):
                         for p in info.parameters.orientation_parameters}
     if pars is None:
         pars = c14.random_pars(info, c14.mixed_seed(rseed, sorted(pd.items()), case["lam"], case["q"], case["mode"]))
+    pars.update(whole_choice)
     pars.pop("scale", None)
     pars.pop("background", None)
     case["pars"] = pars
